@@ -391,7 +391,7 @@ func (env *CEnv) bin(n *Node) cval {
 		if l == TFalse {
 			return cval{V: TTrue}
 		}
-		return cval{V: Implies(l, env.term(n.Kids[1]))}
+		return cval{V: Implies(l, env.guardedTerm(n.Kids[1]))}
 	case "<=>":
 		return cval{V: Eq(env.term(n.Kids[0]), env.term(n.Kids[1]))}
 	}
@@ -478,6 +478,11 @@ func (env *CEnv) toTermLoose(v Value) *Term {
 		return x.T
 	case *ReqV, *CtxV, *PtrV, *LocV, *MapV:
 		return env.ex.asTerm(env.scratchState(), v)
+	case *SymSliceV:
+		// an opaque slice that was neither resliced nor written compares by identity
+		if x.Ref != nil && x.Off == nil && x.Cell == 0 {
+			return x.Ref
+		}
 	}
 	return nil
 }
@@ -811,6 +816,45 @@ func (env *CEnv) call(n *Node) cval {
 			sort = map[string]string{"int": SInt, "bool": SBool, "string": SStr, "ref": SInt}[n.Kids[2].S]
 		}
 		return cval{V: App("val!"+m, sort, v)}
+	case "dyntype":
+		// dyntype(v): name of the dynamic type held by an interface value ("" if unknown)
+		v := env.eval(n.Kids[0])
+		if iv, ok := v.V.(*IfaceV); ok && iv.Dyn != nil {
+			t := iv.Dyn
+			if p, ok := t.(*types.Pointer); ok {
+				t = p.Elem()
+			}
+			if nt, ok := t.(*types.Named); ok {
+				return cval{V: StrLit(nt.Obj().Name())}
+			}
+		}
+		return cval{V: StrLit("")}
+	case "dyn":
+		// dyn(v, "A.B"): field A.B of the struct held by an interface value
+		v := env.eval(n.Kids[0])
+		iv, ok := v.V.(*IfaceV)
+		if !ok {
+			cfail("dyn of a value that is not a known interface value: %s", showValue(v.V))
+		}
+		cur, ct := iv.V, iv.Dyn
+		for _, name := range strings.Split(n.Kids[1].S, ".") {
+			sv, ok := cur.(*StructV)
+			stt, ok2 := ct.Underlying().(*types.Struct)
+			if !ok || !ok2 {
+				cfail("dyn: %s has no field %s", showValue(cur), name)
+			}
+			found := false
+			for i := 0; i < stt.NumFields(); i++ {
+				if stt.Field(i).Name() == name {
+					cur, ct, found = sv.F[i], stt.Field(i).Type(), true
+					break
+				}
+			}
+			if !found {
+				cfail("dyn: no field %s", name)
+			}
+		}
+		return cval{V: cur, T: ct}
 	case "field":
 		// field(u, "Name") - generic record accessor
 		u := env.term(n.Kids[0])
@@ -835,16 +879,26 @@ func (env *CEnv) call(n *Node) cval {
 				mt, _ = m.T.Underlying().(*types.Map)
 			}
 		}
+		if md, _ := env.ex.mapData(env.scratchState(), m.V); md != nil && md.T != nil {
+			mt = md.T
+		}
 		if mt == nil {
 			// HTMLData-like default
 			mt = types.NewMap(types.Typ[types.String], types.NewInterfaceType(nil, nil))
 		}
 		v, _ := env.ex.mapLookup(env.scratchState(), m.V, k.V, mt)
-		return cval{V: v}
+		return cval{V: v, T: mt.Elem()}
 	case "maphas":
 		m := env.eval(n.Kids[0])
 		k := env.eval(n.Kids[1])
 		mt := types.NewMap(types.Typ[types.String], types.NewInterfaceType(nil, nil))
+		if md, _ := env.ex.mapData(env.scratchState(), m.V); md != nil && md.T != nil {
+			mt = md.T
+		} else if m.T != nil {
+			if t, ok := m.T.Underlying().(*types.Map); ok {
+				mt = t
+			}
+		}
 		_, has := env.ex.mapLookup(env.scratchState(), m.V, k.V, mt)
 		return cval{V: has}
 	}
@@ -1176,4 +1230,21 @@ func secretsClean(env *CEnv) (bool, string) {
 		}
 	}
 	return true, ""
+}
+
+// guardedTerm evaluates the consequent of an implication. When it is not well
+// defined on this path (a field of a value that has no such field here, ...)
+// it stands for an unknown truth value: the implication then holds only if the
+// antecedent is refutable on the path.
+func (env *CEnv) guardedTerm(n *Node) (t *Term) {
+	defer func() {
+		if r := recover(); r != nil {
+			if _, ok := r.(*evalError); ok {
+				t = env.ex.Fresh("undefined", SBool)
+				return
+			}
+			panic(r)
+		}
+	}()
+	return env.term(n)
 }
